@@ -44,6 +44,7 @@ func runC08(r *an.Run) {
 	c08SliceBounds(r)
 	physicalLines(r, "R11-physical-line-numbers")
 	compiledInterfacesNeverNil(r, "R12-compiled-matchers-are-never-nil")
+	emptiedGroupsAreDropped(r, "R13-emptied-comment-groups-are-dropped")
 }
 
 func tokenEOF(r *an.Run) int64 {
